@@ -424,3 +424,18 @@ Definition may_products_secwide (x : input) (h : list variant) : list seq :=
   flat_map (fun st =>
     flat_map (fun secs => products x false true (translate_from hs st secs)) (may_secs_wide x h))
     (may_starts x h hs).
+
+(* all obliged derivations of any of the given peptides in ONE pass over the haplotypes (diagnosis) *)
+Definition must_witnesses_of (x : input) (peps : list seq) : list (seq * witness) :=
+  flat_map (fun m =>
+    let h := select m (in_vars x) in
+    if must_hap x h then
+      let hs := apply_hap (in_tx x) h in
+      flat_map (fun st =>
+        let tr := translate_from hs st (map (shift h) (in_sec x)) in
+        flat_map (fun sp => match sp with (a, b, f, q) =>
+                    if mem_seq q peps then [(q, mkWit m st (fst tr) (snd tr) a b f)] else [] end)
+                 (span_products x (must_nf x) (must_tail x) tr))
+        (must_starts x hs)
+    else [])
+    (hap_masks true (in_vars x)).
